@@ -4,8 +4,10 @@ from common import *
 # stable keys of the defects the refuted-theorems describe: (family|class) -> theorem
 THEOREM_OF = {
     "inventory-pervasive-unboxed": "C07_inventory_pervasive_boxes",
-    "rows-depth-below-rank": "C07_below_rank_refuted",
-    "empty-axis-error": "C07_first_depth_empty_refuted",
+    "rows-depth-below-rank": "C07_exec_rows_cap",
+    "empty-axis-error": "C07_kernel_empty_lead",
+    "multi-output": "C07_iter_exec_runs",
+    "multi-output-empty": "C07_iter_exec_zero",
     "malformed-result": "C07_box_kernel_wf",
 }
 
@@ -133,7 +135,7 @@ def run(r):
     r.coverage["distinct_nontrivial"] = len(set((c["prog"], c["x"]) for c in rep if "[]" not in c["x"])) + compared // 3
     r.coverage["rule"] = ("tie: catalogue operand (26: fast-path atoms, generic atoms, composites with equal / unequal kernel depths) x nesting 1-3 x integer or character "
                           "array of rank 1-4, axis lengths 0-3, leading axis forced to 1 / 0 in 30% of the cases; search: operand from 44 monadic / 18 dyadic "
-                          "functions x {direct, named wrapper, `(F∘)`} x modifier family x arrays of every element type, rank 1-3; plus a directed family (fixed corpus and one iteration in six): "
+                          "functions x {direct, named wrapper, `(F∘)`} x modifier family x arrays of every element type, rank 1-3; plus operands with 2-3 outputs (constants, random numbers, by/on/fork/bracket inside the operand) under rows (depth 1-2), each, inventory, table, fold, ALL outputs compared in order (one iteration in six and a fixed corpus); plus a directed family (fixed corpus and one iteration in six): "
                           "reduce / scan / table / fold / rows / each of operands with primitive-specialised paths on arguments that carry run-time sortedness marks "
                           "(sort, reversed sort, select by rise; ties; byte and float storage; rank 1-3, rows ordered while later columns are not monotone); "
                           "non-trivial = array with at least one element")
